@@ -158,6 +158,12 @@ int parse_instruction_68hc08(AsmContext *asm_context, char *instr)
           asm_context->memory_read(asm_context->address);
       }
 
+      if (num < -32768 || num > 0xffff)
+      {
+        print_error_range(asm_context, "Address", -32768, 65535);
+        return -1;
+      }
+
       operands[operand_count].value = num;
     }
 
